@@ -15,14 +15,15 @@ EXTENDS Naturals, Sequences, FiniteSets, TLC, Json, IOUtils, CSV
 
 CONSTANTS NObj,        \* number of secnonce objects the client owns
           NBuf,        \* number of session_secrand32 buffers
-          NKey,        \* number of distinct keypairs; key 0 additionally has a "twin" (same x, opposite y): index NKey
+          NKey,        \* number of distinct keypairs; key 0 additionally has two relatives (indices NKey, NKey+1), see below
           MaxId        \* bound on generated nonces (state constraint)
 
 Objs == 0..(NObj-1)
 Bufs == 0..(NBuf-1)
 Keys == 0..(NKey-1)
-Twin == NKey                  \* keypair whose public key is the negation of key 0's
-AllKeys == 0..NKey
+Twin == NKey                  \* keypair whose public key is the negation of key 0's (same x, opposite y)
+LTwin == NKey + 1             \* keypair lambda*d0: public key (beta*x, y) -- same y, other x (endomorphism image)
+AllKeys == 0..(NKey + 1)
 
 \* classes of a secnonce object
 Zero == [c |-> "zero"]                     \* all 132 bytes zero
